@@ -144,6 +144,15 @@ Theorem C17_cubic_zero_data_kept : forall ns, cp_data (cubic_construct (mkCubicA
 Proof. intros ns. reflexivity. Qed.
 Print Assumptions C17_cubic_zero_data_kept.
 
+(* ---- field_type x map: a supplied map is applied for EVERY field_type -- None, each documented name, and a Geometry
+        instance of each class; the base geometry is the one selected by field_type (the passed object itself for an instance) *)
+Theorem C17_domain_geometry : forall (f : ftype) (has_map : bool),
+  fst (fst (domain_geometry_desc f has_map)) = has_map /\
+  snd (fst (domain_geometry_desc f has_map)) = gclass_code (base_class f) /\
+  (forall c, f = FInstance c -> snd (domain_geometry_desc f has_map) = true /\ base_class f = c).
+Proof. exact domain_geometry_mapped_iff. Qed.
+Print Assumptions C17_domain_geometry.
+
 (* non-vacuity: a PSF is produced, a legacy half row of the right length exists, stencils act on real inputs *)
 Example C17_deep_nonvacuous :
   (exists P, moffat_psf_1d 4 (qc (1 # 2)) = Some P) /\ (exists P, defocus_psf_1d true 5 (qc (1 # 1)) = Some P) /\
